@@ -7,6 +7,7 @@
     append   := (outside) | ( world "innerHTML of the target" )      after target.appendInnerHTML
     created  := tree                                createElement(name)
     tree  := ( elem* ) pre-order;   elem := ( uid "name" sc (block*) (child*) "text" parent owner ((k v)*) )
+            (the three constructor results omit `owner`: the property does not speak about it)
     owner := none | tmp (the temporary parser) | document number
 -/
 import Driver.DomWire
@@ -22,6 +23,15 @@ def elemSx (known : Nat) (e : Meta × List DN) : Sexp :=
   .list [natAtom e.1.id, strAtom e.1.name, sym (if e.1.sc then "1" else "0"), .list (e.2.map blockSx),
          .list (e.1.children.map natAtom), strAtom e.1.text, optNat e.1.parent, ownerSx known e.1.owner,
          .list (e.1.attrs.map (fun a => .list [strAtom a.1, optStr a.2]))]
+
+/-- an element of a returned fragment: the property does not speak about the ownerDocument of what the
+    constructors hand out, so it is not part of the comparison -/
+def fragElemSx (e : Meta × List DN) : Sexp :=
+  .list [natAtom e.1.id, strAtom e.1.name, sym (if e.1.sc then "1" else "0"), .list (e.2.map blockSx),
+         .list (e.1.children.map natAtom), strAtom e.1.text, optNat e.1.parent,
+         .list (e.1.attrs.map (fun a => .list [strAtom a.1, optStr a.2]))]
+
+def fragSx (n : DN) : Sexp := .list ((elems n).map fragElemSx)
 
 def treeSx (known : Nat) (n : DN) : Sexp := .list ((elems n).map (elemSx known))
 
@@ -40,14 +50,14 @@ def run (payload : String) : String :=
     | some (w, t, p, name) =>
       let known := w.nextDoc
       let a := match createElementFromHTML w.nextDoc w.next p with
-        | .ok r => Sexp.list [sym "ok", treeSx known r]
+        | .ok r => Sexp.list [sym "ok", fragSx r]
         | .error k => Sexp.list [sym "raise", sym k]
       let b := Sexp.list ((createElementsFromHTML w.nextDoc w.next p).map (fun o => match o with
-        | some r => treeSx known r
+        | some r => fragSx r
         | none => sym "none"))
       let c := Sexp.list ((createBlocksFromHTML w.nextDoc w.next p).map (fun b => match b with
         | .text s => strAtom s
-        | .el m k => treeSx known (.el m k)))
+        | .el m k => fragSx (.el m k)))
       let d := match w.appendInnerHTML t p with
         | none => Sexp.list [sym "outside"]
         | some (w', _) =>
